@@ -106,7 +106,7 @@ def run_stream(ctx, stream, progs, check_parse=True, nontrivial=None, keep_lines
         slines.append('spec:runast %d %s %s' % (len(i), ' '.join(i), sx))
     model = ctx.run_lean(mlines)
     spec = ctx.run_lean(slines)
-    n_unspec = n_unmod = 0
+    n_unspec = n_unmod = n_fatal = 0
     for k in range(len(progs)):
         ctx.evaluations += 1
         case = run_lines[k]
@@ -132,10 +132,16 @@ def run_stream(ctx, stream, progs, check_parse=True, nontrivial=None, keep_lines
             pass
         elif not model_matches(g, m):
             ctx.disagreement(stream, case, g, m)
-        if s in ('unspecified', 'fuel') or s.startswith('fatal'):
-            n_unspec += 1
-            if s.startswith('fatal') and not g.startswith('err'):
+        if s.startswith('fatal'):
+            # a program the manual does not admit (a numeral where a name belongs, an input nobody supplied): the run must end with
+            # an error at that point — everything displayed before it is what the spec displays, nothing after it
+            n_fatal += 1
+            if not g.startswith('err'):
                 ctx.violation(stream + ':fatal-accepted', case, g, s)
+            elif ' | ' in s and ' | ' in g and g.rsplit(' | ', 1)[1] != s.rsplit(' | ', 1)[1]:
+                ctx.violation(stream + ':fatal-trace', case, g, s)
+        elif s in ('unspecified', 'fuel'):
+            n_unspec += 1
         else:
             pg, ps = project(g), s
             if pg != ps and not model_matches(pg, ps):
@@ -145,11 +151,12 @@ def run_stream(ctx, stream, progs, check_parse=True, nontrivial=None, keep_lines
         key = 'ok' if g.startswith('ok') else (' '.join(g.split(' ')[:3]) if g.startswith('err') else g.split(' ')[0])
         ctx.count(stream + ':' + key)
     ctx.count(stream + ':spec-unspecified', n_unspec)
+    ctx.count(stream + ':spec-fatal', n_fatal)
     ctx.count(stream + ':model-unmodelled', n_unmod)
     for k in (0, len(progs) // 2, len(progs) - 1):
         if 0 <= k < len(progs):
             ctx.sample({'stream': stream, 'source': srcs[k], 'go': go[k], 'model': model[k], 'spec': spec[k]})
-    ctx.streams.append({'stream': stream, 'cases': len(progs), 'spec_unspecified': n_unspec, 'model_unmodelled': n_unmod})
+    ctx.streams.append({'stream': stream, 'cases': len(progs), 'spec_unspecified': n_unspec, 'spec_fatal': n_fatal, 'model_unmodelled': n_unmod})
     return srcs, go, model, spec
 
 
